@@ -58,6 +58,8 @@ def decided(kind, cname, total, succ, fail):
 def branch(beh, t, i):
     if beh == "ok":
         return [{"k": "step", "fn": {"sleep": t, "then": {"ret": f"v{i}"}}}]
+    if beh == "ok0":   # results that are falsy but real
+        return [{"k": "step", "fn": {"sleep": t, "then": {"ret": [0, "", [], False, {}][i % 5] if isinstance(i, int) else 0}}}]
     if beh == "okbig":
         return [{"k": "step", "fn": {"sleep": t, "then": {"bytes": 150_000}}}]
     if beh == "fail":
@@ -77,6 +79,8 @@ def make(kind, n, cname, maxc, behs, times):
     meta = {"kind": kind, "n": n, "cname": cname, "maxc": maxc, "behs": list(behs), "times": list(times)}
     if kind == "par":
         op = {"k": "par", "branches": [branch(b, t, i) for i, (b, t) in enumerate(zip(behs, times))], "cfg": cfg}
+        if "ok0" in behs:
+            op["branch_ret"] = "last"
         if CONFIGS[cname] is None and maxc is None:
             op.pop("cfg")
     else:
@@ -126,6 +130,10 @@ def programs(tier):
         if cname in ("first",):
             p["seq"][0]["branches"][0] = [{"k": "step", "fn": {"sleep": 1, "then": {"bytes": 300_000}}}]
         out.append(p)
+    # branch results that are falsy but real (0, "", [], False): first delivery and replay
+    out.append(make("par", 3, "all_completed", None, ["ok0", "ok0", "ok0"], [1, 2, 3]))
+    out.append(make("par", 3, "min2", None, ["ok0", "ok0", "ok"], [2, 1, 3]))
+    out.append(make("par", 2, "first", None, ["ok0", "ok0"], [2, 1]))
     for cname in ("all_completed", "first", "tol0", "default"):
         out.append(make("par", 2, cname, None, ["park", "ok"], [0, 1]))
         out.append(make("par", 2, cname, None, ["park", "fail"], [0, 1]))
